@@ -88,7 +88,7 @@ impl Driver for ProbeDriver {
         let hi = if rr.hi > self.last_exit { rr.hi - self.last_exit } else { zero };
         let lo = if rr.lo > entry { rr.lo - entry } else { zero };
         let in_window = t + eps >= lo && t <= hi + eps;
-        let is_overdue_value = overdue_possible && t == Duration::from_millis(1);
+        let is_overdue_value = overdue_possible && t <= Duration::from_millis(1);
         if !in_window && !is_overdue_value {
           tv = Some(format!("poll was given the time-out {:?}; the schedule (fire time + delay_ms + ticks x interval_ms) allows only [{:?}, {:?}]{}", t, lo, hi, if overdue_possible { " or 1ms when overdue" } else { "" }));
         }
